@@ -5,7 +5,7 @@ from fractions import Fraction as F
 import trio
 import trio.testing
 
-from .. import corr
+from .. import corr, vclock
 from ..num import wire, unwire, canon
 from ..pools import RecPool
 
@@ -30,7 +30,9 @@ def q(rng, lo, hi, dens=(1, 1, 2, 4, 3)):
 
 def near(rng, anchors):
     a = rng.choice(anchors)
-    return a + rng.choice([0, 0, F(1, 4), -F(1, 4), F(1, 100), -F(1, 100), 1, -1])
+    # on the anchor, visibly off it, and a hair off it (closer than any float tolerance one might apply)
+    return a + rng.choice([0, 0, F(1, 4), -F(1, 4), F(1, 100), -F(1, 100), 1, -1,
+                           F(1, 10 ** 12), -F(1, 10 ** 12), F(1, 10 ** 15), -F(1, 10 ** 15)])
 
 
 def gen_pool(rng):
@@ -240,7 +242,7 @@ def impl(case):
         except Exception as e:
             err.append(type(e).__name__)
 
-    trio.run(main, clock=trio.testing.MockClock(autojump_threshold=0))
+    vclock.run(main)
     return {"ctor": "ok", "obs": obs}
 
 
